@@ -159,6 +159,7 @@ class RawMeshData:
             for attr_name in self.edges.attributes:
                 old_attrs[attr_name] = self.edges.get_attribute(attr_name)
                 new_attrs[attr_name] = new_edges.create_attribute(attr_name, old_attrs[attr_name].type, old_attrs[attr_name].elemsize)
+                new_attrs[attr_name]._default_value = old_attrs[attr_name]._default_value
             n = 0
             for ie in self.id_edges:
                 a,b = self.edges[ie]
